@@ -29,6 +29,10 @@ func SendServiceUsageRequest(
 	}
 	// one connection per exchange: release it (and its watchdog) when the exchange is over
 	defer conn.Close()
+	// only the answer arriving on the connection of this exchange is the answer to this request;
+	// it is parked in a buffered channel so that the message dispatcher never blocks
+	answer := make(chan *diam.Message, 1)
+	ue.RatingMux.Handle("SUA", handleAnswerOf(conn, answer))
 
 	meta, ok := smpeer.FromContext(conn.Context())
 	if !ok {
@@ -51,7 +55,7 @@ func SendServiceUsageRequest(
 	}
 
 	select {
-	case m := <-ue.RatingChan:
+	case m := <-answer:
 		var sua charging_datatype.ServiceUsageResponse
 		if errMarshal := m.Unmarshal(&sua); errMarshal != nil {
 			return nil, fmt.Errorf("Failed to parse message from %v", errMarshal)
@@ -66,6 +70,25 @@ func HandleSUA(rgChan chan *diam.Message) diam.HandlerFunc {
 	return func(c diam.Conn, m *diam.Message) {
 		logger.RatingLog.Tracef("Received SUA from %s", c.RemoteAddr())
 
-		rgChan <- m
+		select {
+		case rgChan <- m:
+		default:
+			// nobody is waiting for this answer (any more): discard it instead of blocking the dispatcher
+		}
+	}
+}
+
+// handleAnswerOf accepts the answer of one exchange: the message must arrive on the connection the
+// request was sent on; anything else (a late answer of an earlier exchange) is discarded.
+func handleAnswerOf(conn diam.Conn, answer chan *diam.Message) diam.HandlerFunc {
+	return func(c diam.Conn, m *diam.Message) {
+		if c != conn {
+			logger.RatingLog.Tracef("Discard late answer from %s", c.RemoteAddr())
+			return
+		}
+		select {
+		case answer <- m:
+		default:
+		}
 	}
 }
